@@ -754,7 +754,13 @@ def unify_chunks_expr(*args, warn=True):
     arrays, inds = zip(*arginds)
     if all(ind is None for ind in inds):
         return {}, list(arrays), False
-    if all(ind == inds[0] for ind in inds) and all(a.chunks == arrays[0].chunks for a in arrays):
+    if (
+        all(ind == inds[0] for ind in inds)
+        and all(a.chunks == arrays[0].chunks for a in arrays)
+        # a label on two axes of one operand ('ii') still has to be unified
+        # between those axes
+        and len(set(inds[0])) == len(inds[0])
+    ):
         return dict(zip(inds[0], arrays[0].chunks)), arrays, False
 
     nameinds = []
